@@ -14,10 +14,11 @@ def load_registry():
 
 def run_bounded(bid, tier='quick', repo='/repo', extra_args=None):
     t0 = time.time()
-    src = os.path.join(BDIR, bid)
+    crate = (load_registry().get(bid) or {}).get('crate', 'harness')
+    src = os.path.join(BDIR, crate)
     repo = os.path.realpath(repo)
     tag = hashlib.sha256(repo.encode()).hexdigest()[:8]
-    work = os.path.join(BDIR, 'work', '%s-%s' % (bid, tag))
+    work = os.path.join(BDIR, 'work', '%s-%s-%s' % (crate, tag, os.getpid() if repo != '/repo' else 0))
     os.makedirs(work, exist_ok=True)
     toml = open(os.path.join(src, 'Cargo.toml.tmpl')).read().replace('@REPO@', repo)
     tp = os.path.join(work, 'Cargo.toml')
@@ -57,8 +58,8 @@ def run_bounded(bid, tier='quick', repo='/repo', extra_args=None):
     with open(os.path.join(tdir, '.vx-lock'), 'w') as lk:
         fcntl.flock(lk, fcntl.LOCK_EX)
         before = listing() if scratch_tree else set()
-        p = subprocess.run(['cargo', 'build', '--offline', '--release', '-q'], cwd=work, env=env, capture_output=True, text=True, timeout=3000)
-        built = os.path.join(tdir, 'release', 'vx-bounded-' + bid)
+        p = subprocess.run(['cargo', 'build', '--offline', '--release', '-q', '--bin', bid], cwd=work, env=env, capture_output=True, text=True, timeout=3000)
+        built = os.path.join(tdir, 'release', bid)
         if p.returncode == 0 and os.path.exists(built):
             shutil.copy2(built, binp)
         if scratch_tree:
